@@ -456,6 +456,9 @@ def stripLayout (toks : List String) : List String :=
 
 def frameOps : List String := ["io.feed", "io.rb", "h.post", "live.io", "live.cli"]
 
+/-- ops whose JSON value may be preceded by the flag `rev` (member order of the text; the model does not see it) -/
+def revOps : List String := ["decenc", "casedec", "casedec.err"]
+
 /-! ## clause texts (byte-identical with what seeded/*/meta.json, known_findings.json and DESIGN.md quote) -/
 
 def orderClause : String := "ioConn.Read returned the messages of a batch out of the order in which they were written"
@@ -508,6 +511,8 @@ def clauseBody : Clause → String
   | .edpReencFailed => "encode_decode_preserves: re-encoding failed"
   | .badObservation => "bad-observation"
   | .caseMatched => "decode_case_sensitive: a member whose name differs in case from a wire member was matched"
+  | .caseMatchedErr =>
+    "decode_case_sensitive: a member of the error object whose name differs in case from code / message / data was matched (the error object is decoded without regard to case)"
   | .werrCode => "wire_error_wrap: code is not that of the first wrapped wire error"
   | .werrMessage => "wire_error_wrap: message is not the outermost error's text"
   | .werrNoObject => "wire_error_wrap: no error object on the wire"
@@ -695,6 +700,10 @@ def stepWire (d : DState) (toks : List String) (impl : String) : DState × Verdi
   let toks := match toks with
     | k :: r => if frameOps.contains k then k :: stripLayout r else toks
     | [] => toks
+  -- `rev`: the harness rendered the members of every object in reverse order (text level; not modelled)
+  let toks := match toks with
+    | k :: "rev" :: r => if revOps.contains k then k :: r else toks
+    | _ => toks
   match toks with
   | ["reset"] => ({ pid := d.pid, also := d.also }, { model := "ok" })
   ----------------------------------------------------------------- message codec
@@ -737,6 +746,20 @@ def stepWire (d : DState) (toks : List String) (impl : String) : DState × Verdi
         | [a, b] => some (pDecObs a, pDecObs b)
         | _ => none
       out19 d model (casedecMonitor obs)
+    | _ => bad d
+  | "casedec.err" :: r =>
+    -- a response whose error object has ONE member name differing from code / message / data in case only:
+    -- must decode like the response whose error object does not have it
+    match (do let (nm, r) ← pStr r; let (w, r) ← pJ r; some (nm, w, r) : Option (Bytes × JVal × List String)) with
+    | some (nm, .obj kvs, []) =>
+      let sh (w : JVal) : String := match decodeMsg w with
+        | .ok m => "ok " ++ showMsg m
+        | .error e => showDErr e
+      let model := sh (.obj kvs) ++ " | " ++ sh (.obj (dropErrMember nm kvs))
+      let obs : Option (DecObs × DecObs) := match impl.splitOn " | " with
+        | [a, b] => some (pDecObs a, pDecObs b)
+        | _ => none
+      out19 d model (casedecErrMonitor obs)
     | _ => bad d
   | "werr" :: r =>
     match pGoErr r with
